@@ -12,6 +12,7 @@ import (
 	"path/filepath"
 	"sort"
 	"strings"
+	"time"
 )
 
 type Ctx struct {
@@ -155,6 +156,20 @@ func main() {
 		if *from != "" {
 			c.From = readCaseFile(*from)
 		}
+		// watchdog: an implementation call that never returns (deadlock) must not hang the check
+		go func() {
+			last := -1
+			for {
+				time.Sleep(30 * time.Second)
+				if c.NCases == last {
+					c.Oracle("FAIL case-%d deadlock no progress for 30s after %d cases (a call did not return)", c.NCases, c.NCases)
+					c.Close()
+					fmt.Fprintln(os.Stderr, "watchdog: no progress for 30s")
+					os.Exit(4)
+				}
+				last = c.NCases
+			}
+		}()
 		fn(c)
 		c.Close()
 	default:
